@@ -51,6 +51,8 @@ def draw_ord_fields(rng, td, mode, explicit_rank_p=0.5):
         else:
             ranks = rng.sample(range(-8, 14), n)
         big = style >= 0.12 and rng.random() < 0.1
+        nearmin = rng.random() < 0.1
+        reqs = []
         for idx, f in enumerate(v.fields):
             r = rng.random()
             req = {"ignore": r < 0.25, "method": None, "rank": None}
@@ -65,6 +67,17 @@ def draw_ord_fields(rng, td, mode, explicit_rank_p=0.5):
                     req["ignore"] = True
             if rng.random() < explicit_rank_p:
                 req["rank"] = ranks[idx] * (10 ** 12 if big else 1)
+            reqs.append(req)
+        if nearmin:
+            # explicit ranks inside [isize::MIN, isize::MIN + n): the default ranks of the *other* fields live there
+            # (isize::MIN + position), so only the slots of ignored or explicitly ranked fields are free
+            free = [j for j, q in enumerate(reqs) if q["ignore"] or q["rank"] is not None]
+            rng.shuffle(free)
+            for q in reqs:
+                if q["rank"] is not None and not q["ignore"] and free:
+                    q["rank"] = -2 ** 63 + free.pop()
+        for idx, f in enumerate(v.fields):
+            req = reqs[idx]
             f.req["Ord"] = req
             path = ("cmp_m_%s" if total else "pcmp_m_%s") % f.ty
             f.metas = gen.render_field_cmp_attr(rng, rng.choice(carriers), req, path, allow_rank=True)
